@@ -105,7 +105,14 @@ func VerifC12_DurationRoundTrip() {
 	v := vrt.Int64("value")
 	if !vrt.Thorough() {
 		vrt.Assume(vrt.And(v > -10000000000, v < 10000000000))
-		vrt.Bound("abs-value-below-10^10-in-quick", 10)
+		vrt.Bound("abs-value-below-quick-bound", 10)
+	} else if k := vrt.Choice("value-class", 6); k == 0 {
+		// the digit-sum identity over 19 digits is not decided within the caps by any of
+		// the three solvers; 12 digits are, the int64 boundaries are separate concrete classes
+		vrt.Assume(vrt.And(v > -1000000000000, v < 1000000000000))
+		vrt.Bound("abs-symbolic-value-below-10^12-in-thorough-plus-5-boundary-values", 12)
+	} else {
+		v = []int64{-9223372036854775808, 9223372036854775807, -9223372036854775807, 1000000000000000000, -999999999999999999}[k-1]
 	}
 	if v == -9223372036854775808 {
 		vrt.Tag("min-int64")
